@@ -15,7 +15,8 @@ RULE = ("(a) single-machine benchmark: generated inertia, damping, transient rea
         "scipy solve_ivp (rtol 1e-11) between switchings with electrical power from an independent complex nodal "
         "solution. Oracle: max |delta_h - delta_ref| <= 2 max|delta_h - delta_h/2| + event floor + 50 tol, and the error "
         "does not grow when the step is halved. (b) small-signal benchmark: stock dynamic cases kicked by tripping and "
-        "reclosing a line for 5..20 ms; from the simulated state just after reclosure the response is predicted by the "
+        "reclosing a line for 5..20 ms, or by perturbing the state vector along a drawn direction between two segments of a "
+        "run at rest (algebraic variables moved consistently); from the simulated state just after the kick the response is predicted by the "
         "matrix exponential of the state matrix computed by an independent dense reduction of the Jacobians at the "
         "equilibrium; deviation <= 5 % of the excursion + 2 |x_h - x_h/2| + 50 tol. Non-trivial: (a) swing with "
         "peak-to-peak delta > 0.05 rad and >= 1 switching; (b) kick exciting a state by > 1e-3. Distinct by case JSON.")
